@@ -45,6 +45,18 @@ class Sim:
         j.setdefault("out_dir", os.path.join(self.base, "out"))
         self.proc.stdin.write(json.dumps(j) + "\n")
         self.proc.stdin.flush()
+        # a supervisor that does not answer within a generous wall-clock bound is a harness error, never a hang of the check
+        import select
+        limit = float(os.environ.get("VERIF_JOB_WALL_S", "900"))
+        rl, _, _ = select.select([self.proc.stdout], [], [], limit)
+        if not rl:
+            try:
+                self.proc.kill()
+            except Exception:
+                pass
+            subprocess.run(["pkill", "-KILL", "-P", str(self.proc.pid)], stdout=subprocess.DEVNULL, stderr=subprocess.DEVNULL)
+            self.proc = None
+            return {"outcome": {"kind": "harness", "msg": "xcpsim gave no result within %.0f s of wall-clock time (job killed)" % limit}}
         line = self.proc.stdout.readline()
         if not line:
             rc = self.proc.poll()
